@@ -35,9 +35,8 @@ ASSUMPTIONS = ['the float hash of WL (sum of (-pi/3.15)^colour, epsilon 1e-10) i
                '(partition = exact refinement) is checked on every generated graph',
                'float64 outputs compared within 1e-9, float32 solvers within 2e-5; eigen/singular values within 1e-7',
                'deterministic configurations only (no shuffling, fixed budgets); Propagation (index order dependent) is excluded',
-               'iterative solvers (bicgstab, lanczos) are external: a case where the solver misses its own contract (its scores '
-               'differ from the power iteration on the same numbering by more than 1e-5) is counted (contract-unmet:<solver>) and '
-               'skipped; C04 owns that contract',
+               'PageRank(solver=push) is in the table and fails the relation (worklist order; known finding F-C02-push-order); the '
+               'iterative solvers bicgstab / lanczos are compared like the others (5e-6): get_pagerank now tests the true residual',
                'core numbers, triangles, Betweenness, Closeness are run on directed graphs too; count_cliques and the clustering '
                'coefficient only on undirected graphs (count_cliques orients edges by core order without symmetrising: on a '
                'digraph its value depends on the numbering; C11 scopes it to undirected graphs), Dasgupta cost / TSD on the '
@@ -149,19 +148,22 @@ def corpus_entries():
 
 def collision_graphs(ctx, count):
     """The hash-collision family: the recorded witness (two neighbour-colour multisets whose float hashes differ by
-    2.7e-13 < epsilon), renumbered copies (summation order), copies with an extra disjoint cycle (other n, same ranks)."""
+    2.7e-13 < epsilon), renumbered copies (summation order), copies with an extra disjoint component (other n; when the
+    component shifts the degree ranks the copy need not collide: each copy is judged on its own)."""
+    from vlib.core import ToolFailure
     rng = ctx.rng
     out = []
-    for e in corpus_entries():
-        if e.get('family') != 'hash-collision':
-            continue
+    witnesses = [e for e in corpus_entries() if e.get('family') == 'hash-collision']
+    if not witnesses:
+        raise ToolFailure('corpus/C02.jsonl has no hash-collision witness: the known finding would be replayed on nothing')
+    for e in witnesses:
         a = _csr_of(e['graph'])
         out.append(a)
         n = a.shape[0]
         for _ in range(count):
             b = a
             if rng.random() < 0.5:
-                m = rng.randint(3, 6)     # a disjoint cycle: degree 2, a colour that exists already
+                m = rng.randint(3, 6)
                 es = [(n + i, n + (i + 1) % m) for i in range(m)]
                 es += [(j, i) for i, j in es]
                 coo = a.tocoo()
@@ -172,6 +174,116 @@ def collision_graphs(ctx, count):
             rng.shuffle(perm)
             out.append(graphs.permute_csr(b, perm))
     return out
+
+
+def _exact_classes(a):
+    """colour refinement in Python (independent of the kernel and of the Lean model): class ids of the stable partition"""
+    n = a.shape[0]
+    col = [0] * n
+    while True:
+        keys = [(col[i], tuple(sorted(col[j] for j in a.indices[a.indptr[i]:a.indptr[i + 1]]))) for i in range(n)]
+        ks = {k: t for t, k in enumerate(sorted(set(keys)))}
+        new = [ks[k] for k in keys]
+        if new == col:
+            return col
+        col = new
+
+
+def _blocks(labels):
+    d = {}
+    for i, c in enumerate(labels):
+        d.setdefault(int(c), []).append(i)
+    return sorted(tuple(v) for v in d.values())
+
+
+def collision_cases(ctx, mats):
+    """On the collision family: (1) the model / code tie must hold like anywhere else (plain signature); (2) the colours must
+    group the nodes as refinement does — where they do not, the failure carries the known signature only if it is exactly
+    the recorded one (the partition of the code is the exact one with a single pair of classes merged); (3) the renumbering
+    clauses (colours of P G, are_isomorphic(G, P G)) must hold on the family too."""
+    from sknetwork.topology import color_weisfeiler_lehman, are_isomorphic
+    rng = ctx.rng
+    cases = []
+    for a in mats:
+        n = a.shape[0]
+        pw = (-np.pi / 3.15) ** np.arange(n, dtype=np.double)
+        pwt = enc_list([_bits(x) for x in pw])
+        gdesc = {'n': n, 'indptr': a.indptr.tolist(), 'indices': a.indices.tolist()}
+        impl = call(lambda: 'ok ' + enc_list(color_weisfeiler_lehman(a)))
+        cases.append(Case(('wl-coll-run', _g(a)), {'entry': 'color_weisfeiler_lehman', 'max_iter': -1}, 'c02.wl %s %s -1' % (_g(a), pwt),
+                          impl, None, True, {'f': 'color_weisfeiler_lehman', 'graph': gdesc, 'max_iter': -1, 'family': 'hash-collision'}))
+        if impl.startswith('ok'):
+            lab = [int(x) for x in impl[3:].split(',')]
+            exact = _exact_classes(a)
+            bi, be = _blocks(lab), _blocks(exact)
+            if bi == be:
+                ctx.count('collision-family:no-collision')
+                sig = {'entry': 'color_weisfeiler_lehman', 'max_iter': -1}
+            else:
+                coarser = all(any(set(x) <= set(y) for y in bi) for x in be)
+                one_pair = coarser and len(be) - len(bi) == 1
+                ctx.count('collision-family:' + ('one-pair-merged' if one_pair else 'other-difference'))
+                sig = ({'entry': 'color_weisfeiler_lehman', 'family': 'hash-collision', 'merge': 'one-pair'} if one_pair
+                       else {'entry': 'color_weisfeiler_lehman', 'max_iter': -1})
+            cases.append(Case(('wl-coll-spec', _g(a)), sig, None, impl, 'c02.spec_stable %s %s' % (_g(a), impl[3:]), True,
+                              {'f': 'color_weisfeiler_lehman', 'graph': gdesc, 'max_iter': -1, 'family': 'hash-collision'}))
+        perm = list(range(n))
+        rng.shuffle(perm)
+        b = graphs.permute_csr(a, perm)
+        try:
+            ok1 = np.array_equal(np.asarray(color_weisfeiler_lehman(b)), _perm_vec(np.asarray(color_weisfeiler_lehman(a)), perm))
+            iso = are_isomorphic(a, b)
+            why = None if (ok1 and bool(iso)) else ('colours of the renumbered graph are not the renumbered colours' if not ok1
+                                                    else 'are_isomorphic(G, PG) = %r' % iso)
+        except Exception as e:  # noqa
+            why = 'raises ' + type(e).__name__ + ': ' + str(e)[:80]
+        ctx.case(('wl-coll-relabel', _g(a), tuple(perm)), True, None)
+        ctx.count('relation:WL-collision-family')
+        if why:
+            ctx.spec_fail({'entry': 'color_weisfeiler_lehman', 'relation': 'relabel'},
+                          {'f': 'color_weisfeiler_lehman', 'graph': gdesc, 'perm': perm}, {'why': why})
+    return cases
+
+
+def witness_tie(ctx):
+    """The literals of the Lean witness (Model/WLWitness.lean) are the corpus graph and numpy's powers, bit for bit."""
+    ans = ctx.lean(['c02.witness'])[0].split(' ')
+    e = [x for x in corpus_entries() if x.get('family') == 'hash-collision'][0]['graph']
+    n = int(ans[0])
+    pw = (-np.pi / 3.15) ** np.arange(n, dtype=np.double)
+    want = [str(e['n']), enc_list(e['indptr']), enc_list(e['indices']), enc_list([_bits(x) for x in pw])]
+    ctx.case(('witness-tie',), True, None)
+    if ans != want:
+        which = [k for k, (x, y) in zip(('n', 'indptr', 'indices', 'powers'), zip(ans, want)) if x != y]
+        ctx.broken('wl_float_hash_collision:witness-tie', 'the literals of Model/WLWitness.lean differ from the corpus graph / numpy powers in: %s' % which,
+                   {'entry': 'color_weisfeiler_lehman', 'tie': 'witness-literals'})
+
+
+def decay_case(ctx):
+    """Second mechanism of the float hash (thorough tier): powers[c] < 1e-10 for c >= ~8 615, so two colours above that hash
+    alike. A spider (root, a leaf, legs of L and L+1 nodes) has all n = 2L+3 nodes pairwise separable by refinement (they
+    differ in their distance profile); the code merges some of them once n exceeds ~8 800."""
+    from sknetwork.topology import color_weisfeiler_lehman
+    L = 4600
+    es = [(0, 1)]
+    prev = 0
+    k = 2
+    for length in (L, L + 1):
+        prev = 0
+        for _ in range(length):
+            es.append((prev, k))
+            prev = k
+            k += 1
+    n = k
+    es = es + [(j, i) for i, j in es]
+    a = sparse.csr_matrix((np.ones(len(es)), tuple(zip(*es))), shape=(n, n))
+    lab = np.asarray(color_weisfeiler_lehman(a))
+    ctx.case(('wl-decay', n), True, None)
+    ctx.count('decay-family:classes=%d-of-%d' % (len(set(lab.tolist())), n))
+    if len(set(lab.tolist())) != n:
+        ctx.spec_fail({'entry': 'color_weisfeiler_lehman', 'family': 'hash-decay', 'colours_over_8600': True},
+                      {'f': 'color_weisfeiler_lehman', 'spider_legs': [L, L + 1], 'n': n},
+                      {'why': 'all %d nodes of the spider are pairwise separable by refinement, the code gives %d classes' % (n, len(set(lab.tolist())))})
 
 
 def _relabel_raw(a, perm):
@@ -270,7 +382,19 @@ def _algos():
     for solver, tol in (('piteration', 1e-9), ('RH', 1e-9), ('diteration', 2e-5), ('lanczos', 5e-6), ('bicgstab', 5e-6)):
         A['PageRank(%s)' % solver] = ('vec', (lambda a, x, s=solver: PageRank(solver=s, n_iter=60, tol=1e-12).fit_predict(a)), tol, 'any')
         A['PageRank(%s,seeds)' % solver] = ('vec', (lambda a, x, s=solver: PageRank(solver=s, n_iter=60, tol=1e-12).fit_predict(a, weights=x['weights'])), tol, 'any')
+    # the sixth solver: its worklist order depends on the numbering (known finding F-C02-push-order)
+    A['PageRank(push)'] = ('vec', lambda a, x: PageRank(solver='push').fit_predict(a), 2e-5, 'any')
     A['Katz'] = ('vec', lambda a, x: Katz().fit_predict(a), 1e-9, 'any')
+    # a second column of options (non-default configurations of the same algorithms)
+    A['Katz(path_length=2,damping=.3)'] = ('vec', lambda a, x: Katz(damping_factor=0.3, path_length=2).fit_predict(a), 1e-9, 'any')
+    A['HITS(authorities)'] = ('vec', lambda a, x: HITS().fit(a).scores_col_, 1e-6, 'simple-top-singular')
+    A['Betweenness(normalized)'] = ('vec', lambda a, x: Betweenness(normalized=True).fit_predict(a), 2e-5, 'weakly-connected')
+    A['get_distances(transpose)'] = ('vec', lambda a, x: get_distances(a, source=x['sources'], transpose=True), 0, 'any')
+    A['Diffusion(init=.5)'] = ('vec', lambda a, x: Diffusion(n_iter=4).fit_predict(a, values=x['values'], init=0.5), 1e-9, 'any')
+    A['DiffusionClassifier(centering=False,probs)'] = ('rows', lambda a, x: DiffusionClassifier(centering=False).fit(a, labels=x['labels']).probs_.toarray(), 1e-9, 'any')
+    A['DiffusionClassifier(n_iter=3,scale=2,probs)'] = ('rows', lambda a, x: DiffusionClassifier(n_iter=3, scale=2).fit(a, labels=x['labels']).probs_.toarray(), 1e-9, 'any')
+    A['spectrum(laplacian)'] = ('inv', lambda a, x: np.sort(Spectral(n_components=min(2, a.shape[0] - 2), decomposition='laplacian').fit(a).eigenvalues_), 1e-7, 'spectral')
+    A['spectrum(regularization=.1)'] = ('inv', lambda a, x: np.sort(Spectral(n_components=min(2, a.shape[0] - 2), regularization=0.1).fit(a).eigenvalues_), 1e-7, 'spectral')
     A['HITS(hubs)'] = ('vec', lambda a, x: HITS().fit(a).scores_row_, 1e-6, 'simple-top-singular')
     A['Closeness'] = ('vec', lambda a, x: Closeness().fit_predict(a), 1e-9, 'weakly-connected')
     A['Betweenness'] = ('vec', lambda a, x: Betweenness().fit_predict(a), 2e-5, 'weakly-connected')   # float32 kernel
@@ -293,19 +417,12 @@ def _algos():
     A['cliques3'] = ('inv', lambda a, x: count_cliques(a, 3), 0, 'undirected')
     A['cliques4'] = ('inv', lambda a, x: count_cliques(a, 4), 0, 'undirected')
     A['cliques5'] = ('inv', lambda a, x: count_cliques(a, 5), 0, 'undirected')
-    A['clustering_coefficient'] = ('inv', lambda a, x: get_clustering_coefficient(a), 1e-12, 'undirected')
+    A['clustering_coefficient'] = ('inv', lambda a, x: get_clustering_coefficient(a), 1e-12, 'any')
     A['modularity'] = ('inv', lambda a, x: get_modularity(a, x['partition']), 1e-12, 'any')
     A['modularity(res=2,uniform)'] = ('inv', lambda a, x: get_modularity(a, x['partition'], weights='uniform', resolution=2), 1e-12, 'any')
     A['spectrum'] = ('inv', lambda a, x: np.sort(Spectral(n_components=min(2, a.shape[0] - 2)).fit(a).eigenvalues_), 1e-7, 'spectral')
     A['singular_values'] = ('inv', lambda a, x: np.sort(SVD(n_components=min(2, a.shape[0] - 2)).fit(a).singular_values_), 1e-7, 'spectral')
     return A
-
-
-def _iterative_solver(name):
-    for sv in ('bicgstab', 'lanczos'):
-        if name.startswith('PageRank(' + sv):
-            return sv
-    return None
 
 
 def _hier_algos():
@@ -420,6 +537,7 @@ def relation_cases(ctx, items, perms_per, sub=None, fixed=None):
                         base[name] = f(a, dend)
                 except Exception as e:  # noqa
                     dend = None
+                    tgt.count('hierarchy-base-raises:' + type(e).__name__)
         gdesc = {'n': n, 'dense': a.toarray().tolist()}
         for perm in perms:
             if list(perm) == list(range(n)):
@@ -439,19 +557,6 @@ def relation_cases(ctx, items, perms_per, sub=None, fixed=None):
                     except Exception as e:  # noqa
                         out = ('EXC', type(e).__name__)
                     y = base[name]
-                    solver = _iterative_solver(name)
-                    if solver and not (isinstance(y, tuple) or isinstance(out, tuple)):
-                        # the external solver's own contract, on each numbering: close to the power iteration
-                        pname = name.replace(solver, 'piteration')
-                        try:
-                            ref_a = base[pname]
-                            ref_b = algos[pname][1](b, aux_p)
-                            unmet = (not np.allclose(y, ref_a, atol=1e-5, rtol=0)) or (not np.allclose(out, ref_b, atol=1e-5, rtol=0))
-                        except Exception:  # noqa
-                            unmet = False
-                        if unmet:
-                            tgt.count('contract-unmet:' + solver)
-                            continue
                     tgt.count('relation:' + name)
                     if isinstance(y, tuple) or isinstance(out, tuple):
                         ok = isinstance(y, tuple) and isinstance(out, tuple) and y == out
@@ -489,6 +594,7 @@ def relation_cases(ctx, items, perms_per, sub=None, fixed=None):
                             out, ok = repr(e), False
                         tgt.case(key, True, None)
                         tgt.count('relation:' + name)
+                        tgt.count('relation-evaluated:' + name)
                         if not ok:
                             tgt.spec_fail({'entry': name, 'relation': 'relabel'},
                                           {'entry': name, 'graph': gdesc, 'perm': list(perm), 'dendrogram': np.asarray(dend).tolist()},
@@ -545,6 +651,13 @@ def _bip_algos():
     A['bip:Dirichlet'] = (vals(lambda: Dirichlet(n_iter=8)), 1e-9)
     A['bip:DiffusionClassifier'] = (probs(lambda: DiffusionClassifier()), 1e-9)
     A['bip:PageRankClassifier'] = (probs(lambda: PageRankClassifier()), 1e-7)
+    A['bip:HITS'] = (lambda b, x: (lambda e: {'scores_row': e.scores_row_, 'scores_col': e.scores_col_})(HITS().fit(b)), 1e-6)
+    from sknetwork.path import get_distances
+
+    def dist(b, x):
+        r, c = get_distances(b, source_row=x['src_row'], source_col=x['src_col'])
+        return {'dist_row': r, 'dist_col': c}
+    A['bip:get_distances'] = (dist, 0)
     A['bip:modularity'] = (lambda b, x: {'inv': get_modularity(b, x['part_row'], x['part_col'])}, 1e-12)
     A['bip:singular_values'] = (lambda b, x: {'inv': np.sort(SVD(n_components=min(2, min(b.shape) - 1)).fit(b).singular_values_)}, 1e-7)
     return A
@@ -556,7 +669,8 @@ def _bip_aux(rng, nr, nc):
         if v.sum() == 0:
             v[rng.randrange(n)] = 1.0
         return v
-    return {'weights_row': w(nr), 'weights_col': w(nc),
+    return {'src_row': sorted(rng.sample(range(nr), rng.randint(0, min(nr, 2)))) or [0], 'src_col': sorted(rng.sample(range(nc), rng.randint(0, 1))),
+            'weights_row': w(nr), 'weights_col': w(nc),
             'values_row': {int(i): float(rng.choice([0, 1, 3])) for i in rng.sample(range(nr), min(nr, 2))},
             'values_col': {int(i): float(rng.choice([0, 2])) for i in rng.sample(range(nc), 1)},
             'labels_row': {int(i): t % 2 for t, i in enumerate(rng.sample(range(nr), min(nr, 2)))},
@@ -566,7 +680,8 @@ def _bip_aux(rng, nr, nc):
 
 def _bip_perm_aux(x, pr, pc):
     pr, pc = list(pr), list(pc)
-    return {'weights_row': _perm_vec(x['weights_row'], pr), 'weights_col': _perm_vec(x['weights_col'], pc),
+    return {'src_row': sorted(pr[i] for i in x['src_row']), 'src_col': sorted(pc[i] for i in x['src_col']),
+            'weights_row': _perm_vec(x['weights_row'], pr), 'weights_col': _perm_vec(x['weights_col'], pc),
             'values_row': {int(pr[k]): v for k, v in x['values_row'].items()},
             'values_col': {int(pc[k]): v for k, v in x['values_col'].items()},
             'labels_row': {int(pr[k]): v for k, v in x['labels_row'].items()},
@@ -604,6 +719,11 @@ def bipartite_relation_cases(ctx, count, sub=None, fixed=None):
         with warnings.catch_warnings():
             warnings.simplefilter('ignore')
             for name, (f, tol) in algos.items():
+                if name == 'bip:HITS':
+                    sv = np.linalg.svd(b.toarray(), compute_uv=False)
+                    from sknetwork.topology import is_connected as _ic
+                    if not (sv[0] > 0 and (len(sv) < 2 or sv[0] - sv[1] > 1e-2 * sv[0]) and bool(_ic(b))):
+                        continue
                 sig = {'entry': name, 'relation': 'relabel-bipartite'}
                 desc = {'entry': name, 'biadjacency': dense, 'perm_row': list(pr), 'perm_col': list(pc), 'aux': jaux}
                 key = (name, tuple(map(tuple, dense)), tuple(pr), tuple(pc))
@@ -682,15 +802,32 @@ def _rel_mats(ctx, quick):
 def _entries_without_evaluation(ctx):
     rel = {k.split(':', 1)[1] for k in ctx.dist if k.startswith('relation:')}
     ev = {k.split(':', 1)[1] for k in ctx.dist if k.startswith('relation-evaluated:')}
-    skip = {'WL-twins', 'are_isomorphic', 'dasgupta_cost', 'dasgupta_cost(weights=uniform)', 'tree_sampling_divergence'}
+    skip = {'WL-twins', 'WL-collision-family', 'are_isomorphic'}
     return sorted(rel - ev - skip)
+
+
+def corpus_relation(ctx):
+    """recorded (graph, permutation, restart weights) triples of past relation failures run first"""
+    for e in corpus_entries():
+        if e.get('family') != 'relation':
+            continue
+        a = sparse.csr_matrix(np.array(e['dense'], dtype=float))
+        aux = _aux(ctx.rng, a.shape[0])
+        if 'weights' in e:
+            aux['weights'] = np.array(e['weights'], dtype=float)
+        relation_cases(ctx, [a], perms_per=1, fixed=(e['perm'], aux))
+        ctx.count('corpus:relation')
 
 
 def run(ctx):
     from vlib.core import ToolFailure
     quick = ctx.quick
+    corpus_relation(ctx)
     wl = _wl_mats(ctx, quick)
-    evaluate(ctx, wl_cases(ctx, collision_graphs(ctx, 2 if quick else 12), family='hash-collision', max_iters=(-1,)))
+    witness_tie(ctx)
+    evaluate(ctx, collision_cases(ctx, collision_graphs(ctx, 2 if quick else 12)))
+    if not quick:
+        decay_case(ctx)
     evaluate(ctx, wl_cases(ctx, wl))
     evaluate(ctx, wl_twin_cases(ctx, twin_graphs(ctx, 6 if quick else 60)))
     small = [a for a in wl if a.shape[0] <= (5 if quick else 6)]
@@ -720,17 +857,22 @@ def search(ctx, pending):
 def replay(ctx, payload):
     """Re-run the recorded case itself (graph, permutation(s), auxiliary inputs), then its neighbourhood."""
     case = payload.get('case') or {}
-    if case.get('f') == 'color_weisfeiler_lehman':
+    if 'spider_legs' in case:
+        decay_case(ctx)
+    elif case.get('f') == 'color_weisfeiler_lehman':
         a = _csr_of(case['graph'])
         if 'perm' in case:
             evaluate(ctx, wl_twin_cases(ctx, [a], perm_fixed=case['perm']))
+        elif case.get('family') == 'hash-collision':
+            evaluate(ctx, collision_cases(ctx, [a]))
         else:
-            evaluate(ctx, wl_cases(ctx, [a], family=case.get('family')))
+            evaluate(ctx, wl_cases(ctx, [a]))
     elif case.get('f') == 'are_isomorphic':
         a, b = _csr_of(case['graph']), _csr_of(case['graph2'])
         evaluate(ctx, iso_cases_pair(ctx, a, b, case.get('max_iter', -1)))
     elif 'biadjacency' in case:
-        aux = {k: (np.array(v) if isinstance(v, list) else {int(i): x for i, x in v.items()}) for k, v in case['aux'].items()}
+        aux = {k: (list(v) if k.startswith('src_') else np.array(v) if isinstance(v, list) else {int(i): x for i, x in v.items()})
+               for k, v in case['aux'].items()}
         bipartite_relation_cases(ctx, 0, fixed=(case['biadjacency'], case['perm_row'], case['perm_col'], aux))
     elif 'graph' in case and 'dense' in case['graph']:
         a = sparse.csr_matrix(np.array(case['graph']['dense'], dtype=float))
